@@ -25,7 +25,7 @@ SHARDS = {"quick": 8, "thorough": 16}
 
 
 def gen_cases(tier, seed):
-    n = 40 if tier == "quick" else 1200
+    n = 80 if tier == "quick" else 12000
     return [{"i": i, "seed": seed} for i in range(n)]
 
 
